@@ -38,20 +38,29 @@ META = {
     "level_text": "Kernel-checked: annotLe_sound, loosen_weakens, loosen_keeps_io, loosen_sound, loosenModel_weakens "
                   "(every scope, any nesting depth, function bodies), promote_keeps_type_in_sync, broadcastDims_sound "
                   "(H1 consistent runtime shapes under one binding, H2 numpy-broadcastable), annotConsistent_sound "
-                  "(accepted scope ⇒ every node-output annotation true, for vocabulary nodes). The models agree with the "
-                  "real postprocess_ir_model on every export of the run and with _broadcast_shape_dims on generated lists.",
+                  "(accepted scope ⇒ every node-output annotation true, for vocabulary nodes); Props/C08Ops.lean: infer_sound "
+                  "(shape/dtype rules of Pow/logical/bitwise, comparisons, Where, Cast, Shape, Transpose, Expand, Reshape "
+                  "(constant positive target), Constant, Gather, Unsqueeze/Squeeze/ReduceX (one constant axis), Concat — for "
+                  "every symbol binding, against the operator specification XSem), annotConsistentX_sound (both "
+                  "vocabularies), callSite_sound (the checker applied to a function body with the CALL SITE's argument "
+                  "annotations), loop_body_rank_only / other_body_inherits / rankOnly_vinfo / func_body_mode (which scopes "
+                  "the post-processing treats rank-only). The models agree with the real postprocess_ir_model on every "
+                  "export of the run and with _broadcast_shape_dims on generated lists; the inference rules fed with "
+                  "run-time shapes reproduce ONNX Runtime's output shapes/dtypes exactly on every observed vocabulary node.",
     "level_note": "PARTIAL: post-processing and the broadcast kernel are proved on the model; the annotations stamped by "
                   "the ~600 plugins and the other optimiser metadata helpers are CHECKED PER EXPORT by observation in "
-                  "ORT (top graph and Loop bodies; If branches and function bodies are not observable this way), over "
-                  "a few symbol bindings – sampled, not proved. annotConsistent_sound covers only the small vocabulary "
-                  "(shape-preserving unary ops, Add/Sub/Mul/Div/Max/Min) and assumes ONNX semantics at those nodes. Trusted: "
-                  "translators, ORT as the runtime, Lean's interpreter for per-model runs. Two genuine defects of the unchanged "
-                  "tree are listed in known_findings.d/C08.json (shared dynamic-dim sentinel symbol; DOUBLE declared for a "
-                  "FLOAT ReduceSum result).",
+                  "ORT (top graph, Loop bodies, and function bodies once per call site by inlining the function with its "
+                  "value_info; If branches are not observable this way), over a few symbol bindings – sampled, not proved. "
+                  "The proven checker covers the two vocabularies only (other operators are skipped and counted) and assumes "
+                  "the ONNX operator specification (NodeSem / XSem) at those nodes. Trusted: translators (attribute values and "
+                  "constant payloads are read by harness/c08_attrs.py), ORT as the runtime, Lean's interpreter for per-model "
+                  "runs. Genuine defects of the unchanged tree are listed in known_findings.d/C08.json (shared dynamic-dim "
+                  "sentinel symbol; DOUBLE declared for a FLOAT ReduceSum result; float16 softmax; stale shapes after the "
+                  "single-consumer transpose-chain fold).",
     "design_ref": "DESIGN.md §3 C08",
 }
 
-MODS = ["J2O.Props.C08"]
+MODS = ["J2O.Props.C08", "J2O.Props.C08Ops"]
 
 
 # ----------------------------------------------------------------------------- broadcast tie
@@ -195,11 +204,15 @@ class PostprocessHook:
         self.orig = ui.postprocess_ir_model
 
         def wrapped(model, *, promote_to_double):
+            import c08_attrs
             before = modeltree.from_ir(model)
+            before_x = c08_attrs.enrich(model, before)      # attribute values for the extended vocabulary
             c = _const_f32_names(model) if promote_to_double else []
             self.orig(model, promote_to_double=promote_to_double)
             after = modeltree.from_ir(model)
-            SNAPS.append({"before": before, "after": after, "promote": bool(promote_to_double), "constF32": c})
+            after_x = c08_attrs.enrich(model, after)
+            SNAPS.append({"before": before, "after": after, "promote": bool(promote_to_double), "constF32": c,
+                          "before_x": before_x, "after_x": after_x})
 
         ui.postprocess_ir_model = wrapped
         return self
@@ -248,9 +261,13 @@ def _annot_of(vi):
     return int(tt.elem_type), dims
 
 
-def instrument(proto):
+def instrument(proto, only_prefix: Optional[str] = None):
     """Copy of the model in which every annotated value of the top graph and (recursively) of Loop
-    bodies is a graph output.  -> (model, records{name, elem, dims, lead, origin, producer})"""
+    bodies is a graph output.  -> (model, records{name, elem, dims, lead, origin, producer})
+    With `only_prefix` (function bodies inlined per call site by harness/c08_fninline.py) only the values whose
+    name carries the prefix are recorded; their top-level value_info entries are then REMOVED from the
+    executed copy and they are exposed without a declared type, so that a false declared element type shows up
+    as a run-time contradiction instead of stopping ONNX Runtime from loading the instrumented copy."""
     import onnx
     m = copy.deepcopy(proto)
     counter = [0]
@@ -266,6 +283,8 @@ def instrument(proto):
         seen = set()
         for vi in list(g.value_info) + list(g.output) + (list(g.input) if path != "main" else []):
             if vi.name in seen or vi.name not in local:
+                continue
+            if only_prefix and only_prefix not in vi.name:
                 continue
             seen.add(vi.name)
             if not vi.type.HasField("tensor_type") or not vi.type.tensor_type.elem_type:
@@ -310,8 +329,15 @@ def instrument(proto):
     have = {vi.name for vi in m.graph.output}
     for r in recs:
         if r["name"] not in have:
-            m.graph.output.append(_type_vi(r["name"], r["elem"]))
+            if only_prefix and r["lead"] == 0:
+                m.graph.output.append(onnx.helper.make_empty_tensor_value_info(r["name"]))
+            else:
+                m.graph.output.append(_type_vi(r["name"], r["elem"]))
             have.add(r["name"])
+    if only_prefix:
+        kept_vi = [vi for vi in m.graph.value_info if only_prefix not in vi.name]
+        del m.graph.value_info[:]
+        m.graph.value_info.extend(kept_vi)
     return m, recs
 
 
@@ -323,18 +349,36 @@ def _np_elem(arr) -> int:
         return -1
 
 
-def observe(proto, rng_np, bindings: Optional[list]) -> tuple[list[dict], dict]:
-    """-> (contradictions, stats)"""
+def observe(proto, rng_np, bindings: Optional[list], fn_mode: bool = False,
+            facts: Optional[dict] = None) -> tuple[list[dict], dict]:
+    """-> (contradictions, stats).  `fn_mode`: observe the annotations INSIDE function bodies, once per call
+    site (the functions are inlined per call site with their value_info, see harness/c08_fninline.py)."""
     import oracles
     import progs
+    import c08_fninline
     stats = {"values": 0, "body_values": 0, "runs": 0, "run_errors": 0, "not_observable": 0}
     if not oracles.ort_supports_opset(oracles.default_opset(proto)):
         stats["not_observable"] = 1
         return [], stats
+    sites: dict = {}
     try:
-        inst, recs = instrument(proto)
-    except Exception:
+        if fn_mode:
+            res = c08_fninline.inline_functions(proto)
+            if res is None:
+                return [], stats
+            inlined, sites, st_in = res
+            stats["call_sites"] = st_in["sites"]
+            inst, recs = instrument(inlined, only_prefix=c08_fninline.PREFIX)
+            for r in recs:
+                site = c08_fninline.site_of(r["origin"], sites) or {}
+                r["function"] = site.get("function", "?")
+                r["call_site"] = site.get("where", "?")
+                r["origin"] = f"fn {r['function']}:{c08_fninline.local_name(r['origin'])} @ {r['call_site']}"
+        else:
+            inst, recs = instrument(proto)
+    except Exception as e:
         stats["not_observable"] = 1
+        stats["instrument_error"] = f"{type(e).__name__}: {str(e)[:200]}"
         return [], stats
     stats["values"] = len(recs)
     stats["body_values"] = sum(1 for r in recs if r["lead"] > 0)
@@ -353,6 +397,16 @@ def observe(proto, rng_np, bindings: Optional[list]) -> tuple[list[dict], dict]:
                 plain_loads = True
             except Exception:
                 plain_loads = False
+            if fn_mode and plain_loads and c08_fninline.PREFIX in m.group(2):
+                # a declared element type INSIDE an inlined function body (a nested Loop/If body of it) that
+                # ONNX Runtime's type inference refutes for this call site
+                site = c08_fninline.site_of(m.group(2), sites) or {}
+                return [{"what": "dtype-static", "name": m.group(2),
+                         "origin": f"fn {site.get('function', '?')}:{c08_fninline.local_name(m.group(2))} @ "
+                                   f"{site.get('where', '?')}",
+                         "function": site.get("function", "?"), "call_site": site.get("where", "?"),
+                         "producer": re.sub(r"^node_|_\d+$", "", m.group(3)), "elem": m.group(1), "dims": None,
+                         "runtime": m.group(4), "binding": None, "lead": 0}], stats
             if not plain_loads:          # not an artefact of the instrumentation
                 node = m.group(3)
                 prod = re.sub(r"^node_|_\d+$", "", node)
@@ -380,6 +434,14 @@ def observe(proto, rng_np, bindings: Optional[list]) -> tuple[list[dict], dict]:
             continue
         stats["runs"] += 1
         symvals: dict = {}
+        if facts is not None and not facts:         # run-time dtype/shape of the top-level values (first run)
+            for nm, arr in feeds.items():
+                facts[nm] = (_np_elem(arr), list(np.asarray(arr).shape))
+            for t in proto.graph.initializer:
+                facts.setdefault(t.name, (int(t.data_type), [int(d) for d in t.dims]))
+            for r, val in zip(recs, outs):
+                if r["lead"] == 0:
+                    facts[r["name"]] = (_np_elem(val), list(np.asarray(val).shape))
         for r, val in zip(recs, outs):
             arr = np.asarray(val)
             shape = list(arr.shape)
@@ -403,12 +465,18 @@ def observe(proto, rng_np, bindings: Optional[list]) -> tuple[list[dict], dict]:
                     if d in input_syms and d in b and b[d] != s:
                         contradictions.append(dict(r, what="symbol", axis=k, runtime=shape, binding=b))
                         break
-                    symvals.setdefault(d, {}).setdefault(s, r["origin"])
-        for sym, vals in symvals.items():
+                    # a dim_param names one value per graph; a function body is instantiated per call site, so
+                    # inside inlined bodies the symbol is scoped by the call site
+                    symvals.setdefault((r.get("call_site", ""), d), {}).setdefault(s, r["origin"])
+        for (site, sym), vals in symvals.items():
             if len(vals) > 1 and sym not in input_syms:
-                contradictions.append({"what": "symbol-inconsistent", "symbol": sym,
-                                       "values": {str(k): v for k, v in vals.items()}, "binding": b,
-                                       "origin": "main", "producer": "?", "name": sym})
+                c = {"what": "symbol-inconsistent", "symbol": sym,
+                     "values": {str(k): v for k, v in vals.items()}, "binding": b,
+                     "origin": site or "main", "producer": "?", "name": sym}
+                if site:
+                    c["call_site"] = site
+                    c["function"] = next((r["function"] for r in recs if r.get("call_site") == site), "?")
+                contradictions.append(c)
     return contradictions, stats
 
 
@@ -424,6 +492,28 @@ def optimize_proto(model):
     return ir.to_proto(irm)
 
 
+def _fixed_transpose_castlike():
+    """The listed defect F-C08-transpose-chain-castlike-stale-shape, observed on every run:
+    Transpose[1,2,0] -> Elu -> CastLike(., like[6,2,3]) -> Transpose[2,0,1] on an input of shape (3,6,2)."""
+    import onnx
+    from onnx import TensorProto, helper
+    nodes = [helper.make_node("Transpose", ["in_0"], ["tran1"], perm=[1, 2, 0]),
+             helper.make_node("Elu", ["tran1"], ["elu3"], alpha=0.1),
+             helper.make_node("CastLike", ["elu3", "in_1"], ["cast5"]),
+             helper.make_node("Transpose", ["cast5"], ["tran7"], perm=[2, 0, 1])]
+    g = helper.make_graph(nodes, "g", [helper.make_tensor_value_info("in_0", TensorProto.FLOAT, [3, 6, 2]),
+                                       helper.make_tensor_value_info("in_1", TensorProto.FLOAT, [6, 2, 3])],
+                          [helper.make_tensor_value_info("tran7", TensorProto.FLOAT, [3, 6, 2])],
+                          value_info=[helper.make_tensor_value_info(nm, TensorProto.FLOAT, [6, 2, 3])
+                                      for nm in ("tran1", "elu3", "cast5")])
+    m = helper.make_model(g, opset_imports=[helper.make_opsetid("", 21)], ir_version=10)
+    return m, {"family": "transpose_chain", "rank": 3, "p1": [1, 2, 0], "p2": [2, 0, 1], "inverse": True,
+               "chain": ["Elu", "CastLike:data"], "sym": False, "guards": [], "fixed": True}
+
+
+FIXED_OPT_GRAPHS = [_fixed_transpose_castlike]
+
+
 def check_optimizer_stream(chk: Check, rng: common.Rng, thorough: bool) -> int:
     """Small ONNX graphs around the optimizer's rewrite patterns (harness/graphgen.py: transpose chains, reshape
     pairs, elementwise DAGs, … with the operators read from the live op sets), annotated by ONNX shape inference,
@@ -436,8 +526,8 @@ def check_optimizer_stream(chk: Check, rng: common.Rng, thorough: bool) -> int:
     stats = {"graphs": 0, "changed_by_optimizer": 0, "optimizer_raised": 0, "before_already_contradictory": 0,
              "values": 0, "runs": 0, "not_observable": 0}
     fams: dict = {}
-    for _ in range(n):
-        model, desc = graphgen.generate(rng)
+    for k in range(-len(FIXED_OPT_GRAPHS), n):
+        model, desc = FIXED_OPT_GRAPHS[k]() if k < 0 else graphgen.generate(rng)
         fam = str(desc.get("family", desc.get("pattern", "?")))
         stats["graphs"] += 1
         try:
@@ -466,7 +556,10 @@ def check_optimizer_stream(chk: Check, rng: common.Rng, thorough: bool) -> int:
         seen = set()
         for c in cons:
             key = {"kind": "annotation_contradiction", "what": c["what"], "producer": c.get("producer", "?"),
-                   "context": "optimizer", "component": fam, "in_loop_body": bool(c.get("lead", 0))}
+                   "context": "optimizer", "component": fam, "in_loop_body": bool(c.get("lead", 0)),
+                   # special chain elements of the generated graph (e.g. "CastLike:data": the chain value is the
+                   # data operand of a CastLike whose type operand is another full-shape tensor)
+                   "chain_tags": ",".join(sorted({str(x) for x in desc.get("chain", []) if ":" in str(x)}))}
             ks = json.dumps(key, sort_keys=True)
             if ks in seen:
                 continue
@@ -605,9 +698,14 @@ def run(chk: Check) -> None:
         opt._refresh_elementwise_output_shape = orig_refresh
 
     atexit.register(_restore)       # also restored explicitly right after the loop
-    gen = progs.export_in_chunks(plan, max_models=250, max_bytes=400_000_000, deadline=t0 + budget,
-                                 after=grab_snapshot)
-    for chunk in gen:
+    fn_tot = {"models_with_functions": 0, "call_sites": 0, "values": 0, "runs": 0, "not_observable": 0}
+    calls = {"call_sites": 0, "certified_by_proven_checker": 0, "not_certified_samples": []}
+    skipped_hist: dict = {}
+    vocab_small = [0]
+    rule_val = {"nodes": 0, "models": 0, "mismatches": []}
+
+    def process(chunk):
+        nonlocal n_done, n_snap, changed, vocab, cert, observed, concrete
         done = []
         for ex in chunk:
             if not ex.ok:
@@ -620,7 +718,7 @@ def run(chk: Check) -> None:
         lines = [json.dumps({"op": "loosen", "before": done[k][1]["before"], "after": done[k][1]["after"],
                              "promote": done[k][1]["promote"], "constF32": done[k][1]["constF32"]},
                             separators=(",", ":"), ensure_ascii=False) for k in idx]
-        clines = [modeltree.request("consistent", done[k][1]["before"]) for k in idx]
+        clines = [modeltree.request("consistent", done[k][1]["before_x"]) for k in idx]
         answers = common.run_driver("C08", lines + clines)
         n_snap += len(idx)
         for k, a in zip(idx, answers[:len(idx)]):
@@ -634,7 +732,8 @@ def run(chk: Check) -> None:
                 if not a.startswith("diff"):
                     raise RuntimeError(f"driver C08: {a[:300]}")
                 ldis.append({"program": ex.desc, "config": ex.cfg, "diff": a[:400]})
-        # (b') proven consistency checker on the PRE-post-processing model (annotations at full strength);
+        # (b') proven consistency checker (both vocabularies, every call site of a model-local function with the
+        #      call site's argument annotations) on the PRE-post-processing model (annotations at full strength);
         #      loosen_sound + the correspondence above carry "true" over to the final model
         for k, a in zip(idx, answers[len(idx):]):
             if not a.startswith("{"):
@@ -642,25 +741,27 @@ def run(chk: Check) -> None:
             r = json.loads(a)
             vocab += r["vocab"]
             cert += r["certified"]
+            vocab_small[0] += r.get("vocab_small", 0)
+            calls["call_sites"] += r.get("calls", 0)
+            calls["certified_by_proven_checker"] += r.get("calls_certified", 0)
+            for x in r.get("rejected_calls", []):
+                if len(calls["not_certified_samples"]) < 6:
+                    calls["not_certified_samples"].append({"program": progs.describe(done[k][0].desc), "call": x[:300]})
+            for o, c_ in r.get("skipped", {}).items():
+                skipped_hist[o] = skipped_hist.get(o, 0) + c_
             for x in r["rejected"]:
                 if len(rejected) < 200:
                     rejected.append({"program": progs.describe(done[k][0].desc), "node": x[:300]})
-        # (c) observation oracle
-        for ex, snap in done:
-            if time.time() - t0 > budget:
-                break
-            cons, st = observe(ex.proto, rng_np, bindings)
-            observed += 1
-            for k in tot:
-                tot[k] += st.get(k, 0)
-            chk.count({"op": "observe", "program": progs.describe(ex.desc), "config": ex.cfg,
-                       "values": st["values"], "body_values": st["body_values"], "runs": st["runs"]},
-                      nontrivial=st["runs"] > 0 and st["values"] > 0)
+
+        def report(ex, cons, in_function: bool):
+            nonlocal concrete
             seen_keys = set()
             for c in cons:
                 ctx_, comp = (ex.desc.get("context", "program"), ex.desc.get("component", ex.desc.get("name", "")))
                 key = {"kind": "annotation_contradiction", "what": c["what"], "producer": c.get("producer", "?"),
                        "context": ctx_, "component": comp, "in_loop_body": bool(c.get("lead", 0))}
+                if in_function:
+                    key["in_function_body"] = c.get("function", "?")
                 if c["what"] == "symbol-inconsistent":
                     key["symbol"] = c.get("symbol")
                 ks = json.dumps(key, sort_keys=True)
@@ -671,10 +772,75 @@ def run(chk: Check) -> None:
                 chk.finding(key, f"{progs.describe(ex.desc)}: value {c.get('origin')} (by {c.get('producer')}) "
                                  f"declared {c.get('elem')}:{c.get('dims')} but runtime "
                                  f"{c.get('runtime', c.get('values'))} [{c['what']}] for {c.get('binding')}",
-                            {"program": ex.desc, "config": ex.cfg, "contradiction": c})
+                            {"program": ex.desc, "config": ex.cfg, "contradiction": c,
+                             "function_body": bool(in_function)})
+
+        # (c) observation oracle; (c') the annotations inside function bodies, per call site
+        vlines, vmeta = [], []
+        for ex, snap in done:
+            if time.time() - t0 > budget:
+                break
+            facts: dict = {}
+            cons, st = observe(ex.proto, rng_np, bindings, facts=facts)
+            observed += 1
+            for k in tot:
+                tot[k] += st.get(k, 0)
+            chk.count({"op": "observe", "program": progs.describe(ex.desc), "config": ex.cfg,
+                       "values": st["values"], "body_values": st["body_values"], "runs": st["runs"]},
+                      nontrivial=st["runs"] > 0 and st["values"] > 0)
+            report(ex, cons, False)
+            if len(ex.proto.functions):
+                cons_f, st_f = observe(ex.proto, rng_np, bindings, fn_mode=True)
+                fn_tot["models_with_functions"] += 1
+                fn_tot["call_sites"] += st_f.get("call_sites", 0)
+                fn_tot["values"] += st_f["values"]
+                fn_tot["runs"] += st_f["runs"]
+                fn_tot["not_observable"] += st_f["not_observable"]
+                chk.count({"op": "observe_function_bodies", "program": progs.describe(ex.desc), "config": ex.cfg,
+                           "call_sites": st_f.get("call_sites", 0), "values": st_f["values"]},
+                          nontrivial=st_f["runs"] > 0 and st_f["values"] > 0)
+                report(ex, cons_f, True)
+            if snap is not None and facts:
+                g = dict(snap["after_x"]["g"])
+                g["v"] = [[nm, (e if e and e > 0 else None), shp] for nm, (e, shp) in facts.items()]
+                vlines.append(json.dumps({"op": "infer", "g": g}, separators=(",", ":"), ensure_ascii=False))
+                vmeta.append((ex, facts))
+        # (d) the inference rules of the Lean vocabulary against ONNX Runtime: fed with the RUN-TIME dtype/shape of a
+        #     node's inputs they must give exactly the run-time dtype/shape of its output
+        if vlines:
+            for (ex, facts), a in zip(vmeta, common.run_driver("C08", vlines)):
+                if not a.startswith("["):
+                    raise RuntimeError(f"driver C08 infer: {a[:300]}")
+                rule_val["models"] += 1
+                for y, rendered in json.loads(a):
+                    if y not in facts:
+                        continue
+                    dt, dims = rendered.split(":", 1)
+                    e, shp = facts[y]
+                    if dt == "-" and dims == "-":
+                        continue
+                    rule_val["nodes"] += 1
+                    want_dims = "[" + ",".join(str(d) for d in shp) + "]"
+                    if (dt != "-" and e > 0 and dt != str(e)) or (dims != "-" and dims != want_dims):
+                        rule_val["mismatches"].append({"program": progs.describe(ex.desc), "value": y,
+                                                       "rule": rendered, "runtime": f"{e}:{want_dims}"})
         for ex, _ in done:
             ex.extra.clear()
         chk.log(f"{n_done} models processed at {round(time.time() - chk.t0, 1)} s")
+
+    # programs calling ONE @onnx_function at several call sites that differ in one component of the instance key
+    import c08_progs
+    fn_chunk = []
+    for d in c08_progs.plan(rng, thorough):
+        ex = c08_progs.export(d, dict(progs.default_cfg(), mode="proto"))
+        grab_snapshot(ex)
+        fn_chunk.append(ex)
+    chk.info("function_call_site_programs", {"planned": len(fn_chunk), "exported": sum(1 for e in fn_chunk if e.ok)})
+    process(fn_chunk)
+    gen = progs.export_in_chunks(plan, max_models=250, max_bytes=400_000_000, deadline=t0 + budget,
+                                 after=grab_snapshot)
+    for chunk in gen:
+        process(chunk)
     _restore()
     chk.coverage["programs"] = n_done
     chk.info("exports", {"planned": len(plan), "exported": n_done, "export_raised": raised})
@@ -688,6 +854,15 @@ def run(chk: Check) -> None:
                                          "(e.g. rank-only loop-body inputs, missing input shape); these values are "
                                          "covered by the ORT observation only"})
     chk.info("observation", dict(tot, models_observed=observed, bindings=bindings))
+    chk.info("function_bodies_observed_per_call_site", fn_tot)
+    chk.info("call_sites_checked_by_callSiteConsistent", calls)
+    chk.info("vocabulary", {"nodes_in_small_vocabulary": vocab_small[0], "nodes_in_both_vocabularies": vocab,
+                            "skipped_operator_histogram": dict(sorted(skipped_hist.items(), key=lambda kv: -kv[1])[:25])})
+    chk.info("inference_rules_vs_onnxruntime", {"models": rule_val["models"], "nodes_compared": rule_val["nodes"],
+                                                 "mismatches": rule_val["mismatches"][:10]})
+    if rule_val["mismatches"]:
+        raise RuntimeError("C08: an inference rule of the Lean vocabulary (XSem) disagrees with ONNX Runtime: "
+                           + json.dumps(rule_val["mismatches"][:3]))
 
     # ---- verdict for correspondence breaks without a concrete false annotation
     if (unresolved or ldis) and not chk.violations:
@@ -707,8 +882,9 @@ def run(chk: Check) -> None:
     chk.coverage["exhaustive"] = False
     chk.assumptions += [
         "ONNX Runtime (graph optimisations disabled) is the run time the annotations are compared with",
-        "values inside If branches and function bodies are not observed; Loop-body values are observed through extra "
-        "scan outputs (iterations with zero trips are skipped)",
+        "values inside If branches are not observed; Loop-body values are observed through extra scan outputs "
+        "(iterations with zero trips are skipped); function-body values are observed once per call site on a copy "
+        "of the model in which the calls are inlined (renaming only, harness/c08_fninline.py)",
         "a dim_param names one value per run (ONNX IR); symbols bound by graph inputs are compared with the binding",
         "runs that ORT refuses for a binding (e.g. B=1 with a static reshape) are skipped and counted",
     ]
@@ -732,12 +908,17 @@ def replay(path: str) -> int:
         return 1 if cons else 0
     if "program" not in rep:
         return 0
-    ex = progs.export(rep["program"], rep.get("config"))
+    if rep["program"].get("kind") == "fncalls":
+        import c08_progs
+        ex = c08_progs.export(rep["program"], rep.get("config"))
+    else:
+        ex = progs.export(rep["program"], rep.get("config"))
     if not ex.ok:
         print("export raises now:", ex.error)
         return 0
     b = rep.get("contradiction", {}).get("binding") or {"B": 2}
-    cons, st = observe(ex.proto, np.random.default_rng(rep.get("seed", 0)), [b])
+    cons, st = observe(ex.proto, np.random.default_rng(rep.get("seed", 0)), [b],
+                       fn_mode=bool(rep.get("function_body")))
     print("contradictions now:", json.dumps(cons[:5], default=str)[:1500], st)
     progs.cleanup()
     return 1 if cons else 0
